@@ -12,6 +12,7 @@ var commands = map[string]func([]string){
 	"serve":   cmdServe,
 	"life":    cmdLife,
 	"c07":     cmdC07,
+	"cfgs":    cmdCfgs,
 	"c07stress": cmdC07Stress,
 }
 
